@@ -4,6 +4,7 @@ import (
 	"fmt"
 	"regexp"
 	"strings"
+	"sync"
 
 	"github.com/nlnwa/whatwg-url/url"
 	"golang.org/x/net/idna"
@@ -184,10 +185,33 @@ func init() {
 	props["C05"] = &propDef{
 		run: func(c *Ctx) {
 			runSetterVectors(c)
-			famHist(c, defaultCfg, 25000*c.Scale, 6, "s", false, apiFields, "setters", nil)
-			famEdgeHist(c, defaultCfg, apiFields, "edge-pairs", false, nil)
+			sdp := &specPool{}
+			defer sdp.close()
+			vsSpec := func(d *Driver, hc histCase, h *implHist, steps []Step, start Obs) {
+				if len(hc.input) > specMaxLen {
+					return
+				}
+				sd := sdp.get()
+				defer sdp.put(sd)
+				sobs := specSetters(sd, hc.base, hc.input, hc.ops)
+				if len(sobs) != len(steps)+1 {
+					c.Report(Finding{Class: "obligation", What: fmt.Sprintf("the Spec answered %d states for %d operations: %v", len(sobs), len(steps), sobs), Case: hc.Case(-1)})
+					return
+				}
+				for k, s := range steps {
+					if len(s.A) != nFields {
+						break
+					}
+					if d := diffSpec(sobs[k+1], Obs{Kind: "U", Fields: s.A}); d != "" {
+						c.Report(Finding{Class: "violation", What: fmt.Sprintf("after %s the URL differs from the standard's setter steps: %s", hc.ops[k].String(), d), Case: hc.Case(k), Host: s.A[fHostname]})
+						break
+					}
+				}
+			}
+			famHist(c, defaultCfg, 25000*c.Scale, 6, "s", false, apiFields, "setters", vsSpec)
+			famEdgeHist(c, defaultCfg, apiFields, "edge-pairs", false, vsSpec)
 		},
-		rule: "the 247 WPT setter vectors (implementation and model against the expected values) + generated setter histories (1-6 setters) compared between model and implementation on the ten API getters after every step",
+		rule: "the 247 WPT setter vectors (implementation and model against the expected values) + generated setter histories (1-6 setters) + all single and all pairs of 67 edge setter calls on 39 start URLs; after every step the implementation is compared with the Coq model and with the extracted Spec transcription of the standard's setter steps on the ten API getters",
 	}
 
 	props["C12"] = &propDef{
@@ -510,4 +534,36 @@ func famEdgeTwo(c *Ctx, cfg *Cfg, fields []int, fam string,
 			each(d, histCase{cfg, nil, s, hops, fam, i}, h, steps, start)
 		}
 	})
+}
+
+// specPool hands out Spec drivers to the worker goroutines of a family
+type specPool struct {
+	mu   sync.Mutex
+	free []*Driver
+	all  []*Driver
+}
+
+func (p *specPool) get() *Driver {
+	p.mu.Lock()
+	defer p.mu.Unlock()
+	if n := len(p.free); n > 0 {
+		d := p.free[n-1]
+		p.free = p.free[:n-1]
+		if !d.dead {
+			return d
+		}
+	}
+	d := NewSpecDriver()
+	p.all = append(p.all, d)
+	return d
+}
+func (p *specPool) put(d *Driver) {
+	p.mu.Lock()
+	p.free = append(p.free, d)
+	p.mu.Unlock()
+}
+func (p *specPool) close() {
+	for _, d := range p.all {
+		d.Close()
+	}
 }
